@@ -27,9 +27,9 @@ TEXT = {
         "note": "The real SystemClock (needs CAP_SYS_TIME) and the PLL are replaced by fakes; Drift proportionality is covered by C18. NaN impact factors are generated among the inadmissible configurations (found and repaired: they were accepted, fix e9fb69f). A real-time watchdog (90 s per case, normal cost < 1 ms) converts a hang into a violation with a replay file.",
     },
     "C12": {
-        "technique": "stateful property testing (rapid) of ntske.Provider under virtual time (testing/synctest) with the race detector: generated advance/Current/Get/burst sequences checked against a model of every key ever returned",
+        "technique": "stateful property testing (rapid) of ntske.Provider under virtual time (testing/synctest) with the race detector: generated advance/Current/Get/burst sequences checked against a model of every key ever returned; plus long runs of 66 000..80 000 rotations (more than 2^16 identifiers); the binaries run in a time zone with daylight saving (TZ=Europe/Zurich)",
         "level": "Generated search over call sequences spanning up to months of virtual time with boundary advances (24 h, 48 h, 72 h +-1 ns) and concurrent bursts of 2..32 goroutines. Exploration; concurrency coverage is what the Go scheduler produces within a burst plus the race detector's verdict.",
-        "note": "Virtual time stands for time.Now; key material randomness is treated as opaque (only distinctness is checked).",
+        "note": "Virtual time stands for time.Now; key material randomness is treated as opaque (only distinctness is checked). A synctest bubble starts in the year 2000 and must stay below 2262 (runtime timers overflow), which bounds a long run to ~250 years.",
     },
     "C16": {
         "technique": "property-based testing (rapid) of ReferenceClockClient.MeasureClockOffsets under virtual time (testing/synctest) with the race detector: generated completion schedules, deadline/cancel/none, overlapping second collections; oracle = exact return instant, exactly-once placement of in-time successes, untouched tail, bubble-exit leak detection",
@@ -72,14 +72,14 @@ TEXT = {
         "note": "Both listeners (SCION: lengths up to 1300 bytes, reply addressing checked as ISD-AS/host/port exchange from the listener socket to the previous hop; path reversal in depth is C13). Relies on per-socket-pair FIFO delivery on loopback; a lost sentinel is retried 6 times.",
     },
     "C20": {
-        "technique": "stateful property testing (rapid) of the real ntske.Fetcher against a scripted TLS 1.3 key-exchange server: generated record streams, ALPN offers, truncations, segmentations and resets over multi-call histories; oracle = independent record parser evaluating the statement's conditions, independently derived RFC 8915 exporter keys from the server's side of the same session, pool/connection-count model",
+        "technique": "stateful property testing (rapid) of the real ntske.Fetcher against a scripted TLS 1.3 key-exchange server: generated record streams, ALPN offers, truncations, segmentations and resets over multi-call histories; oracle = independent record parser evaluating the statement's conditions, independently derived RFC 8915 exporter keys from the server's side of the same session, pool/connection-count model; plus an end-to-end sub-check that watches at which (address, port) the NTS request of a real IPClient arrives after exchanges with/without server and port records and with the key-exchange host configured by address or by name",
         "level": "Generated search over key-exchange histories (~2500 FetchData calls quick) plus a truncation sweep of a valid message at every byte offset (thorough). Exploration.",
-        "note": "TLS only (QUIC/SCION key exchange not exercised); certificate validation is disabled as in the project's insecure-skip-verify configuration; warning records and AEAD lists with several ids are not judged. Found and repaired P8 (375c2ec).",
+        "note": "TLS only (QUIC/SCION key exchange not exercised); certificate validation is disabled as in the project's insecure-skip-verify configuration; warning records and AEAD lists with several ids are not judged. Found and repaired P8 (375c2ec) and a server named by host name never being resolved (5d7b98a). Scripts may end with the server stalling on an open connection (the exchange is bounded by 5 s since fix 4e4a5e8).",
     },
     "C11": {
         "technique": "model-based stateful property testing (rapid): generated loss patterns between the real NTS-enabled IPClient and the real IP listener through an inspecting relay; oracle = pool-level model plus an independent extension-field walker and miscreant AES-SIV on every datagram on the wire; plus harness-sealed requests of shapes the project's client never builds (identifier 32..300 bytes, 0..12 placeholders) sent to the listener, replies judged for size, authenticity and cookie count = as many as fit",
         "level": "Generated search over sequences of up to 40 exchanges with runs of up to 10 consecutive losses (every pool level 8..1, exhaustion and re-keying). Exploration.",
-        "note": "Cookies are exactly this project's (sealed by ServerCookie.EncryptWithNonce under the provider shared with the listener). Key rotation between exchanges is covered by C12. Found and repaired P2 (a656d56) and P3 (43dc11b).",
+        "note": "Server replies are checked on both listeners (IP and SCION). Cookies are exactly this project's (sealed by ServerCookie.EncryptWithNonce under the provider shared with the listener). Key rotation between exchanges is covered by C12. Found and repaired P2 (a656d56) and P3 (43dc11b).",
     },
     "C05": {
         "technique": "property-based testing (rapid) with a fault-injecting server model: scripts of 1..3 mutated/forged replies (header field mutations, NTS extension-field and key mutations, wrong source) delivered to the real IPClient after a real key exchange, and to the real SCIONClient through a front that wraps each payload into a SCION reply which is genuine, harmlessly varied or wrong in exactly one address part; oracle = the statement's acceptance predicate evaluated independently on every datagram sent (own NTS walker + miscreant) and offset attribution via per-datagram clock offsets >= 2 s apart",
